@@ -56,6 +56,8 @@ func runC01(p *core.Program, r *core.Report) {
 	// R11: "gofumpt for the module's language version": the version and module path handed to gofumpt are the module's as
 	// go list reports them - nothing edits the loaded module record (C13.R9)
 	chainRules(p, r, "R11", "C13", []string{"C13.R9"}, "the loaded module record is not edited")
+	// round 8: whether rendered text reaches the file also rests on the snippets answering IsNil for nothing but emptiness
+	chainRules(p, r, "R12", "C09", []string{"C09.R7"}, "a snippet is skipped only when it holds nothing (a blank Block is text)")
 	c01R9(p, r, w, parse[0], fileV)
 	c01R10(p, r, w)
 }
